@@ -7,7 +7,7 @@ import (
 	"go/types"
 	"strings"
 
-	"golang.org/x/tools/go/ssa"
+	"trzszlint/xssa"
 )
 
 type callSite struct {
